@@ -105,6 +105,9 @@ def run(chk):
                 if c["dev"] == 2:
                     m = re.match(r"w=(\S+) f=(\S+) ", sched)
                     sched = "w=/o f=/o s=/o r=/o w2=%s f2=%s" % (m.group(1), m.group(2))
+                elif c.get("sched2"):
+                    m = re.match(r"w=(\S+) f=(\S+) ", c["sched2"])
+                    sched = "%s w2=%s f2=%s" % (sched, m.group(1), m.group(2))
                 lines.append("c13u fixed=1 off=%d len=%d si=%d before=%s after=%s rb=1 %s" % (u["audio_off"], u["len"], u["si"], u["before"] or ";", u["after"] or ";", sched))
                 expect.append(c)
             rc, mout = sh([exe], stdin="\n".join(lines) + "\n", timeout=1200)
